@@ -1079,6 +1079,11 @@ def lx_mod(fmt, args):
         return fmt % args
     fs = SymStr.const(fmt)
     if not fs.concrete():
+        if args == () or args == ((),):
+            # "text" % () : the text itself when it holds no '%', a formatting error otherwise ('%%' is over-approximated)
+            if "%" in fs:
+                raise TypeError("not enough arguments for format string")
+            return fs
         raise Unsupported("symbolic format string")
     f = fs.plain()
     if not isinstance(args, tuple):
